@@ -30,6 +30,12 @@ CHECKS = {
     'C06': dict(
         technique='static analysis: parameter-to-sink dataflow on MIR (aad, tag, every ciphertext byte reach the AEAD verify call unmodified), must-check of the AEAD verdict',
         text='Static analysis: aad/tag/ciphertext parameters flow unmodified and whole into the AEAD decrypt call in every opening interface; the allocating open splits exactly once at len-Nt and uses the input in no other way; the tag is appended directly after the ciphertext by seal; the verdict is never dropped. That the AEAD rejects modified input is the trusted base.'),
+    'C07': dict(
+        technique='static analysis: inter-procedural dependence (backward slice) over MIR provenance terms with callee summaries; label-distinctness and fixed-width framing facts',
+        text='Static analysis: key, base_nonce and exporter_secret each depend on mode, psk, psk_id, info, the shared secret and all three suite identifiers; every KEM shared secret depends on enc, the recipient key, the DH result(s) and the KEM id; export depends on the exporter secret, suite id, exporter context and length; labels are pairwise distinct per PRK and all key_schedule_context components have type-level fixed width. A missing dependence proves independence (violation); presence is necessary, not sufficient. That differing inputs give unrelated keys rests on HKDF collision/pre-image resistance (not decided).'),
+    'C08': dict(
+        technique='static analysis: AuthEncap/AuthDecap provenance terms vs RFC 9180 §4.1 per KEM expansion, decision tables of the mode->identity accessors, key-schedule slot dataflow',
+        text='Static analysis: on the Some branch of the identity option, and only there, every KEM mixes the static-static DH term and pkSm exactly as AuthEncap/AuthDecap prescribe; Auth/AuthPsk yield the stored identity key material, Base/Psk yield None, and setup hands that option to encap/decap; psk and psk_id enter the key schedule in their RFC slots. Unforgeability itself (gap-DH, HKDF as PRF) is assumed, not decided.'),
     'C09': dict(
         technique='static analysis: guard dominance on the MIR CFG, allow-list of validating constructors, constructor-site enumeration (typestate), decision table of the length helper',
         text='Static analysis of the three NIST macro expansions and the four EncappedKey impls: the exact-length guard (expected = type-level OutputSize, given = len) is propagated and its success edge dominates the parser; the parser is an allow-listed validating RustCrypto constructor on the whole input, its error maps to ValidationError and its Ok payload is what is wrapped; every construction site of a key newtype wraps a validated source; enforce_equal_len decision table; dh only accepts the newtypes. Correctness of RustCrypto\'s validation itself (curve equation, canonical coordinates, scalar range) is the trusted base.'),
